@@ -82,6 +82,10 @@ def calculate_bin_edges(centers):
         raise exceptions.SynphotError(
             'Bin centers must have at least two values.')
 
+    # Bin centers are wavelengths: positive, monotonic, without duplicates.
+    from synphot.utils import validate_wavelengths
+    validate_wavelengths(centers)
+
     edges = np.empty(centers.size + 1, dtype=np.float64)
     edges[1:-1] = (centers.value[1:] + centers.value[:-1]) * 0.5
 
